@@ -627,6 +627,18 @@ func (fr *Frame) applyModifies(ev *Eval, ct *Contract, st *State, pre *State) {
 					fr.havocElems(st, sv)
 					goto next
 				}
+			case "key":
+				// key("Elem_uint8"): a whole tracked state component named by its raw key
+				if lit, ok := n.Args[0].(*EStr); ok {
+					srt, known := vc.eng.globSorts[lit.V]
+					if v, has := st.glob[lit.V]; has {
+						srt, known = v.Sort, true
+					}
+					if known {
+						st.setGlob(lit.V, vc.fresh(lit.V, srt))
+					}
+					goto next
+				}
 			case "deref":
 				// deref(p): the cell or location p points to
 				save := ev.st
